@@ -302,10 +302,10 @@ func decodeFullCase(ps *prefixState, in []byte, c *caseResult) (map[string]any, 
 
 // decRun accumulates the decoder-part counters of one shard.
 type decRun struct {
-	h                                         *harness
-	feats                                     map[uint64]struct{}
-	nCases, nFrag, nAccept, nReject, nEither  int64
-	rechecked                                 int64
+	h                                        *harness
+	feats                                    map[uint64]struct{}
+	nCases, nFrag, nAccept, nReject, nEither int64
+	rechecked                                int64
 }
 
 // one evaluates one (table prefix, block) case: reference comparison + fragment closure.
@@ -416,20 +416,20 @@ func partDecoder(h *harness, stage string) {
 		spaces = []space{
 			{"P2a all-256", all256, 3, 0, false, false},
 			{"P2c integers", alphaInt, 7, 0, true, false},
-			{"P5 all-256 maxstr=1", all256, 2, 1, false, false},
-			{"P5 alpha16 maxstr=1", alpha16, 5, 1, false, false},
-			{"P5 alpha16 maxstr=2", alpha16, 5, 2, false, false},
 			{"P2b alpha16", alpha16, 5, 0, false, true},
 			{"P2b alpha14", alpha14, 6, 0, false, true},
+			{"P5 all-256 maxstr=1", all256, 2, 1, false, true},
+			{"P5 alpha16 maxstr=1", alpha16, 5, 1, false, true},
+			{"P5 alpha16 maxstr=2", alpha16, 5, 2, false, true},
 		}
 	} else {
 		spaces = []space{
 			{"P2a all-256", all256, 2, 0, false, false},
 			{"P2c integers", alphaInt, 6, 0, true, false},
-			{"P5 all-256 maxstr=1", all256, 2, 1, false, false},
-			{"P5 alpha16 maxstr=1", alpha16, 4, 1, false, false},
-			{"P5 alpha16 maxstr=2", alpha16, 4, 2, false, false},
 			{"P2b alpha16", alpha16, 5, 0, false, true},
+			{"P5 all-256 maxstr=1", all256, 2, 1, false, true},
+			{"P5 alpha16 maxstr=1", alpha16, 4, 1, false, true},
+			{"P5 alpha16 maxstr=2", alpha16, 4, 2, false, true},
 		}
 	}
 	h.rep.Info["p2_alphabet16"] = hx(alpha16)
@@ -469,9 +469,18 @@ func partDecoder(h *harness, stage string) {
 			return true
 		})
 		h.rep.Add("cases "+sp.name, dr.nCases-before)
-		if len(prefixes) > 0 {
-			h.rep.Sample(map[string]any{"part": sp.name, "table_prefix": prefixes[len(prefixes)-1].name, "prefix_script": prefixes[len(prefixes)-1].script,
-				"block_hex": hx(sp.alphabet[:min(sp.maxLen, len(sp.alphabet))]), "decoded": "whole + every cut set, compared with hpackref.DecodeBlock"})
+		if len(prefixes) > 0 && h.shard == 0 {
+			// one actual case of this space, written out with what both sides said
+			ps := prefixes[len(prefixes)-1]
+			in := []byte{0x41, 0x00, 0xbe, 0xbf, 0x3f, 0x21, 0xff}[:min(sp.maxLen, 7)]
+			if sp.huge {
+				in = []byte{0x3f, 0xff, 0x81, 0x01, 0x7f, 0x80, 0x00}[:min(sp.maxLen, 7)]
+			}
+			c := evalCase(ps, in)
+			h.rep.Sample(map[string]any{"part": sp.name, "table_prefix": ps.name, "prefix_script": ps.script, "block_hex": hx(in),
+				"reference":      map[string]any{"accept": c.res.Accept, "reject_reason": c.res.Reason, "either": c.res.Either, "fields": fieldsString(c.res.Fields), "representations": hpackref.Shape(c.res.Reps)},
+				"real_decoder":   map[string]any{"accepted": c.whole.ok, "error": c.whole.err(), "fields": fieldsString(c.whole.fields), "table_entries": c.whole.n, "table_size": c.whole.size, "max_size": c.whole.max},
+				"cut_sets_tried": 1<<uint(max(len(in)-1, 0)) - 1})
 		}
 	}
 	if stage == "early" {
